@@ -73,7 +73,8 @@ var Shapes = []string{"plain", "ext", "junk1", "otherlog", "stale-own-valid", "s
 //	oddroot           a root hash that is the root of no tree (see OddRoot)
 //	namesake-future/-past/-legacy  an unverifiable line under the witness's key NAME (other key hash), cosignature-shaped with a far-future / ancient timestamp, or legacy-shaped
 func (g *CPGen) Get(l LogCfg, b *uni.Branch, n int, shape string) ([]byte, Meta) {
-	key := fmt.Sprintf("%s|%s|%s|%d|%s", l.Origin, KeyID(l.Key.Verif), b.Name, n, shape)
+	// The whole verifier key, not name+hash: two keys may share both (C02's colliding pair).
+	key := fmt.Sprintf("%s|%s|%s|%d|%s", l.Origin, l.Key.VKey, b.Name, n, shape)
 	g.mu.Lock()
 	if e, ok := g.m[key]; ok {
 		g.mu.Unlock()
